@@ -18,6 +18,10 @@ Quirks of the code are kept (marked Q):
  Q6 only the last map parameter becomes the query dictionary;
  Q7 a qualified non-struct type (time.Duration) is treated as the body parameter, so on a query verb
     it is dropped;
+ Q9 `isStructType` looks for the struct declaration in the file of the interface only: a parameter whose
+    struct type is declared in ANOTHER file of the package is treated as a scalar (`%v` of the struct
+    under the parameter's name; no body);
+ Q10 the kv pattern `{([\w|-]+)\W*:\W*([^}]+)}` lets `\W*` eat leading punctuation of a value (and `}{` after it);
  (Q8 — `reversMap` filled from a Go map, two parameters with the same alias ⇒ map order — was repaired by
     62d8144: such a directive is now a Fatal, and the model follows.)
 -/
@@ -402,6 +406,7 @@ inductive PKind where
   | ctx                               -- selector, named context.Context
   | scalar                            -- identifier that is not a struct declared in the same file
   | struct (fields : List Field)      -- identifier of a struct in the same file, or a qualified named struct
+  | structElsewhere (fields : List Field)  -- identifier of a struct declared in another file of the package: seen as a scalar (Q9)
   | qualOther                         -- qualified named non-struct type (time.Duration): treated like a struct without fields (Q7)
   | dict                              -- map type
   | unsupported                       -- slice, func, array, …: Fatal
@@ -479,7 +484,8 @@ def setBody (st : Cooked) (p : String) : Except CookErr Cooked :=
 def handleParam (verb : Verb) (pathParams : List String) (st : Cooked) (p : Param) : Except CookErr Cooked := do
   let st ← match p.kind with
     | .ctx => pure { st with ctx := some p.name }
-    | .scalar => pure (if pathParams.contains p.name then st else { st with query := st.query ++ [.param p.name] })
+    | .scalar | .structElsewhere _ =>
+      pure (if pathParams.contains p.name then st else { st with query := st.query ++ [.param p.name] })
     | .struct fs => do
       let st ← setBody st p.name
       pure (handleStruct st p.name fs)
@@ -636,6 +642,8 @@ inductive Val where
 inductive Arg where
   | scalar (v : Val)                                         -- scalar or pointer to scalar
   | struct (isNil : Bool) (fields : List (String × Val))     -- struct / pointer to struct (isNil: nil pointer)
+  | structV (isNil : Bool) (fields : List (String × Val)) (fmt : List Char)
+      -- the same for a struct type declared in another file, with what `%v` prints for the value (Q9)
   | dict (entries : List (String × List Char))               -- map[string]T, any order (keys unique)
   | ctx (tag : String)
   deriving Repr, DecidableEq, Inhabited
@@ -648,6 +656,7 @@ def evalExpr (args : Args) : Expr → Option Val
   | .param p =>
     match getKV args p with
     | some (.scalar v) => some v
+    | some (.structV false _ t) => some (.txt t)
     | _ => some .nilPtr
   | .field p f _ =>
     match getKV args p with
